@@ -137,6 +137,18 @@ fn main() {
             println!("{}", json!({"i": i, "op": kind, "stop": true}));
             return;
         }
+        #[cfg(walrus_verif)]
+        {
+            if let Some(f) = op["fault"].as_object() {
+                let kind: &'static str = match f["kind"].as_str().unwrap_or("") {
+                    "uring_cqe" => "uring_cqe",
+                    "create_file" => "create_file",
+                    _ => "flush",
+                };
+                walrus_rust::wal::verif::set_fault(kind, f["nth"].as_u64().unwrap_or(1));
+            }
+            walrus_rust::wal::verif::arm(op["abort_at_event"].as_u64().unwrap_or(0));
+        }
         let res = catch_unwind(AssertUnwindSafe(|| -> Value {
             match kind {
                 "restart_process" => json!({"ok": true}),
@@ -196,6 +208,14 @@ fn main() {
                 json!({"panic": msg})
             }
         };
+        #[cfg(walrus_verif)]
+        {
+            let ev = walrus_rust::wal::verif::disarm();
+            out["events"] = json!(ev);
+            for k in ["uring_cqe", "create_file", "flush"] {
+                walrus_rust::wal::verif::set_fault(k, 0);
+            }
+        }
         out["i"] = json!(i);
         out["op"] = json!(kind);
         println!("{}", out);
